@@ -1032,6 +1032,9 @@ def file_chain(ctx, tag, meta, expect, rname, localise=None, alt=()):
             with RTDCWriter(p1) as hw:
                 hw.store_metadata(meta)
                 hw.store_feature("deform", deform)
+                # one fluorescence channel is recorded: metadata the user stored (e.g. the
+                # channel count of the set-up) are completed by the writer, never replaced
+                hw.store_feature("fl1_max", np.arange(1, N_EVENTS + 1))
         except Exception as exc:
             if localise is None:
                 ctx.ev("file_roundtrip")
